@@ -114,6 +114,28 @@ CLAIMS["C20"] = dict(
     tech=STATIC + "per-variant structure-preservation table extracted by evaluating THIR on model values; dispatch uniformity over match arms",
     engine="tablex+symx")
 
+CLAIMS["C16"] = dict(
+    cat="other",
+    text="Decides that the per-type output table is the standard one and that its siblings agree: scriptPubKey, inner "
+         "script, ECDSA script code, unsigned scriptSig and address of bare / pkh / wpkh / wsh / sh / sh-wsh / sh-wpkh "
+         "extracted symbolically and compared with the BIP16/141/143 table; sorted multisig sites sort with the matching "
+         "routine in encoder and satisfier; Descriptor dispatch is uniform; derive_public_key's key-variant table.",
+    note="Trusted: spec/outputs.py; rust-bitcoin script/address constructors modelled as term constructors; rustc THIR. "
+         "BIP32 derivation equality, multipath expansion and taproot output keys are not decided.",
+    tech=STATIC + "symbolic extraction of output-script terms compared with a standards table; sibling agreement; dispatch uniformity",
+    engine="symx")
+CLAIMS["C17"] = dict(
+    cat="other",
+    text="Decides structural necessary conditions: plans and direct satisfactions come from the same template builders "
+         "and into_plan copies template and locks; Plan::satisfy's per-type assembly equals the direct assembly / the "
+         "standard; every Satisfaction value takes stack, absolute and relative lock from one source (exact tables of "
+         "minimum / minimum_mall, symbolic concatenate_rev, per-fragment templates with symbolic locks); announced sizes "
+         "count what is produced; the Assets key-source relation as an exhaustive table on short paths; mode dispatch.",
+    note="Trusted: spec/outputs.py, spec/satisfaction.py; rustc THIR. Minimality of reported locks and byte equality of "
+         "completed plans are not decided.",
+    tech=STATIC + "call-structure rules, finite decision tables and symbolic field-provenance extraction from THIR",
+    engine="symx+tablex")
+
 NA = {
     "C15": "commitment arithmetic over hashes with shape-dependent index arithmetic: no sound structural argument in "
            "reach decides it; structural residue (depth bounds, constructor discipline, cache coherence, order "
